@@ -1438,13 +1438,13 @@ class XonshParser(Parser):
         mark = self._mark()
         _lnum, _col = self._tokenizer.peek().start
         if a := self.token("NUMBER"):
-            return ast.Constant(value=ast.literal_eval(a.string), **self.span(_lnum, _col))
+            return ast.Constant(value=self.number_value(a), **self.span(_lnum, _col))
         self._reset(mark)
         if (self.expect("-")) and (a := self.token("NUMBER")):
             return ast.UnaryOp(
                 op=ast.USub(),
                 operand=ast.Constant(
-                    value=ast.literal_eval(a.string),
+                    value=self.number_value(a),
                     lineno=a.start[0],
                     col_offset=a.start[1],
                     end_lineno=a.end[0],
@@ -2558,7 +2558,7 @@ class XonshParser(Parser):
             return strings
         self._reset(mark)
         if a := self.token("NUMBER"):
-            return ast.Constant(value=ast.literal_eval(a.string), **self.span(_lnum, _col))
+            return ast.Constant(value=self.number_value(a), **self.span(_lnum, _col))
         self._reset(mark)
         if (self.positive_lookahead(self.expect, "(")) and (_tmp_42 := self._tmp_42()):
             return _tmp_42
